@@ -693,7 +693,8 @@ func c28TieSliceElems(c *Ctx, n int, indexes []int, off, ln *int, positional boo
 // tie: arithmetic l-values and associative subscripts
 
 type c28RecEnv struct {
-	names *[]string
+	names *[]string // names read (also IFS and the like)
+	sets  *[]string // names written: the l-value
 }
 
 func (e c28RecEnv) Get(name string) expand.Variable {
@@ -702,6 +703,9 @@ func (e c28RecEnv) Get(name string) expand.Variable {
 }
 func (e c28RecEnv) Each(func(string, expand.Variable) bool) {}
 func (e c28RecEnv) Set(name string, vr expand.Variable) error {
+	if e.sets != nil {
+		*e.sets = append(*e.sets, name)
+	}
 	return nil
 }
 
@@ -745,10 +749,10 @@ func c28TieLvalue(c *Ctx, dir string, lhs string) {
 		return
 	}
 	got := "1 "
-	var names []string
+	var names, sets []string
 	var aerr error
 	p := safely(func() {
-		cfg := &expand.Config{Env: c28RecEnv{&names}}
+		cfg := &expand.Config{Env: c28RecEnv{&names, &sets}}
 		_, aerr = expand.Arithm(cfg, f.Stmts[0].Cmd.(*syntax.ArithmCmd).X)
 	})
 	res := c28RunIn(dir, src, nil)
@@ -759,14 +763,22 @@ func c28TieLvalue(c *Ctx, dir string, lhs string) {
 	switch {
 	case res.panicked != "" || p != "":
 		got += "panic"
-	case aerr != nil && strings.Contains(aerr.Error(), "unsupported assignment target") && len(names) == 0:
+	case aerr != nil && strings.Contains(aerr.Error(), "unsupported assignment target") && len(sets) == 0:
 		got += "error"
 	case aerr != nil:
 		got += "unexpected-error " + hx(aerr.Error())
-	case len(names) == 0:
-		got += "no-lookup"
+	case len(sets) == 0:
+		got += "no-assignment"
 	default:
-		got += hx(names[0])
+		// the variable written is the l-value; it must also have been read under the same name
+		got += hx(sets[0])
+		read := false
+		for _, n := range names {
+			read = read || n == sets[0]
+		}
+		if !read {
+			got += " not-read"
+		}
 	}
 	c.Op("lvalue "+strings.Join(toks, " "), got)
 }
@@ -804,8 +816,11 @@ func c28TieAssoc(c *Ctx, dir string, idxSrc string) {
 		return
 	}
 	got := "ok"
-	if res.panicked != "" {
+	switch {
+	case res.panicked != "":
 		got = "panic"
+	case strings.Contains(res.stderr, "unsupported associative array subscript"):
+		got = "error"
 	}
 	c.Op("assoc "+kind, got)
 }
